@@ -2,6 +2,7 @@ import NflowsModel.Core.MaskedScatter
 import NflowsModel.Core.Structure
 import NflowsModel.Lemmas.ViewLayout
 import Mathlib.Tactic
+import NflowsModel.Lemmas.StructureExec
 /-!
 # C12 — batch items are evaluated independently in evaluation mode
 
@@ -54,5 +55,38 @@ theorem img_param_layout {α : Type} [Inhabited α] (P : Array α) (B C M H W b 
 /-! non-vacuity -/
 example : MaskedScatter.asCoded (fun (x : Nat) (p : Nat) => x + p) (fun x => x) 0 [true, false, true] [1, 2, 3] [10, 20, 30] = [11, 2, 33] := by
   decide
+
+/-! ## the EXECUTED layers: row `b` of the result depends only on row `b` of the inputs and of the parameters -/
+
+/-- **coupling layer, executed**: if two calls (batch sizes may differ — e.g. the row evaluated alone) agree on row `b`/`b'`
+    of `x` and of the conditioner output, they agree on that row of `out` and on that entry of `ld` (equalities in `α`:
+    bit-for-bit at `Float`; elements that raise are allowed) -/
+theorem exec_coupling_row_independent {α : Type} (o : XOps α) (c : ElCfg) (mask : List α) (S : Nat) (inverse : Bool)
+    (uc : Option ElCfg) (uparams : Array α) {B B' b b' : Nat} (x x' params params' : Array α) (hb : b < B) (hb' : b' < B')
+    (hx : NF.StructureExec.RowAgree mask.length S b b' x x')
+    (hp : NF.StructureExec.RowAgree (NF.StructureExec.paramWidth c (transformIdx o mask).length) S b b' params params') :
+    NF.StructureExec.RowAgree mask.length S b b' (couplingApply o c mask B S x params inverse uc uparams).out
+        (couplingApply o c mask B' S x' params' inverse uc uparams).out
+      ∧ (couplingApply o c mask B S x params inverse uc uparams).ld[b]?
+          = (couplingApply o c mask B' S x' params' inverse uc uparams).ld[b']? :=
+  NF.StructureExec.coupling_row_independent o c mask S inverse uc uparams x x' params params' hb hb' hx hp
+
+/-- **autoregressive element-wise pass, executed** -/
+theorem exec_ar_row_independent {α : Type} (o : XOps α) (c : ElCfg) (F : Nat) (inverse : Bool) {B B' b b' : Nat}
+    (x x' params params' : Array α) (hb : b < B) (hb' : b' < B')
+    (hx : ∀ i, i < F → x[b * F + i]? = x'[b' * F + i]?)
+    (hp : ∀ i k, i < F → params[(b * F + i) * (if c.kind == "araffine" then 2 else c.mult) + k]?
+                        = params'[(b' * F + i) * (if c.kind == "araffine" then 2 else c.mult) + k]?) :
+    (∀ i, i < F → (arApply o c B F x params inverse).out[b * F + i]? = (arApply o c B' F x' params' inverse).out[b' * F + i]?)
+      ∧ (arApply o c B F x params inverse).ld[b]? = (arApply o c B' F x' params' inverse).ld[b']? :=
+  NF.StructureExec.ar_row_independent o c F inverse x x' params params' hb hb' hx hp
+
+/-- **`Piecewise*CDF`, executed** (parameters shared across the batch) -/
+theorem exec_cdf_row_independent {α : Type} (o : XOps α) (c : ElCfg) (n : Nat) (inverse : Bool) {B B' b b' : Nat}
+    (x x' params : Array α) (hb : b < B) (hb' : b' < B')
+    (hx : ∀ i, i < n → x[b * n + i]? = x'[b' * n + i]?) :
+    (∀ i, i < n → (cdfApply o c B n x params inverse).out[b * n + i]? = (cdfApply o c B' n x' params inverse).out[b' * n + i]?)
+      ∧ (cdfApply o c B n x params inverse).ld[b]? = (cdfApply o c B' n x' params inverse).ld[b']? :=
+  NF.StructureExec.cdf_row_independent o c n inverse x x' params hb hb' hx
 
 end Properties.C12
